@@ -419,8 +419,9 @@ def sweep_tool(run, tool, srcdir, args_extra=()):
         raise C.EngineError("%s sweep failed (rc=%d):\n%s" % (tool, rc, o[-2000:]))
     r = json.load(open(out))
     r["cmd"] = " ".join(cmd)
-    os.makedirs(os.path.dirname(cpath), exist_ok=True)
-    json.dump(r, open(cpath, "w"))
+    if not r.get("timeouts"):
+        os.makedirs(os.path.dirname(cpath), exist_ok=True)
+        json.dump(r, open(cpath, "w"))
     return r
 
 
@@ -788,3 +789,218 @@ PROPS["C09"] = {
     ],
     "explanation": "Termination: decreases obligations discharged by govc for the loops under contract; every other loop of the generator is covered only by the bounded scopes (every gocc run of the LEX/SYN sweeps must finish). Complete, compilable output: finite configuration matrix executed with the real binary and go build, on grammars with hostile spellings. This property is mostly outside the reach of function contracts here; the level is 'other' and the split is stated.",
 }
+
+
+def c19_markdown(run):
+    """bounded end-to-end: gocc on x.md behaves as on the text in which prose and fences are blanked rune for rune
+    (independent Python blanking), for several splittings of each corpus grammar, file names with several dots,
+    non-ASCII prose, and an injected illegal character whose reported position must be the one in the markdown file"""
+    import expand, os, re, shutil, common as C
+    gocc = expand.build_gocc(run)
+    viol, cases, samples = [], 0, []
+
+    def blank(md):
+        out, text, i = [], True, 0
+        while i < len(md):
+            if md.startswith("```", i):
+                text = not text
+                out.append("   ")
+                i += 3
+                continue
+            ch = md[i]
+            out.append(ch if (not text or ch == "\n") else " ")
+            i += 1
+        return "".join(out)
+
+    def run_one(name, content, d):
+        os.makedirs(d, exist_ok=True)
+        open(os.path.join(d, "go.mod"), "w").write("module gen\n\ngo 1.24\n")
+        open(os.path.join(d, name), "w", encoding="utf-8").write(content)
+        rc, o = C.sh([gocc, "-a", name], cwd=d, timeout=60)
+        os.remove(os.path.join(d, name))
+        o = re.sub(r"expected one of:.*", "expected one of: <set>", o)
+        return rc, o, tree_digest(d)
+
+    prose = ["# Grammar — naïve café “quoted” prose\n", "Some *text* with ünïcode and a tab\there.\n", "\n"]
+    for g in corpus_grammars(run):
+        if "illformed" in g or g.endswith("t2.bnf"):
+            continue
+        src = open(g, encoding="utf-8").read()
+        if "```" in src:
+            continue
+        lines = src.split("\n")
+        n = len(lines)
+        variants = []
+        for k, cuts in enumerate(([n // 2], [n // 3, 2 * n // 3], [1, n // 2, n - 1])):
+            parts, last = [], 0
+            for c in cuts + [n]:
+                parts.append("\n".join(lines[last:c]))
+                last = c
+            md = prose[0]
+            for j, part in enumerate(parts):
+                md += "```\n" + part + "\n```\n" + prose[(j + 1) % 3]
+            variants.append(("split%d" % k, md, ["g.md", "g.v1.md", "g.bnf.md"][k]))
+        # inline fence after non-ASCII prose, and an injected illegal character inside code
+        bad = lines[:]
+        if n > 2:
+            bad[n // 2] = bad[n // 2] + " #"
+        md = "Préface ünï ```" + "\n".join(bad[: n // 2 + 1]) + "``` suite\n```\n" + "\n".join(bad[n // 2 + 1:]) + "\n```\n"
+        variants.append(("diagnostic", md, "g.md"))
+        for vname, md, fname in variants:
+            cases += 1
+            d1 = os.path.join(run.work, "md", "%s-%s-md" % (os.path.basename(g), vname))
+            d2 = os.path.join(run.work, "md", "%s-%s-ref" % (os.path.basename(g), vname))
+            r1 = run_one(fname, md, d1)
+            r2 = run_one("g.bnf", blank(md), d2)
+            shutil.rmtree(d1, ignore_errors=True)
+            shutil.rmtree(d2, ignore_errors=True)
+            if r1 != r2 and len(viol) < 8:
+                viol.append({"id": "markdown input differs from its blanked text: %s %s" % (os.path.basename(g), vname), "what": "status/diagnostic/digest %s for %s vs %s for the blanked text" % ((r1[0], r1[1][-200:], r1[2][:12]), fname, (r2[0], r2[1][-200:], r2[2][:12])),
+                             "input": {"grammar": g, "variant": vname, "file_name": fname, "markdown": md[:3000]}})
+            if len(samples) < 5 and cases % 7 == 1:
+                samples.append({"grammar": os.path.basename(g), "variant": vname, "file_name": fname, "status": r1[0]})
+    return {"name": "MARKDOWN x.md vs rune-wise blanked text: same status, diagnostics and packages (bounded corpus)", "cases": cases, "evaluations": cases, "violations": viol, "samples": samples}
+
+
+PROPS["C19"]["govc"].append({"dir": "{repo}", "pkgs": ["."], "contracts": [STDLIB, MAIN_CONTRACTS], "prop": "C19"})
+PROPS["C19"]["extra"] = [c19_markdown]
+PROPS["C19"]["assumptions"] += [
+    "os.ReadFile, strings.HasSuffix, config.Config.SourceFile: trusted contracts; []rune(s)/[]byte(s) are modelled by an uninterpreted 'decodes' relation",
+    "the markdown run is a bounded end-to-end cross-check (and the search space for failing inputs), not counted as proof",
+]
+PROPS["C19"]["explanation"] += " GetSource is proved to hand loadMd the RUNE decoding of the file (not its bytes); main.getSource is proved to dispatch on the .md suffix of the whole file name and to end with a non-zero status on a read error."
+
+
+def parse_syntax_part(text):
+    """productions of the syntax part of a carrier grammar: [(head, [symbols], action or None)] (own small reader)"""
+    import re
+    text = re.sub(r"/\*.*?\*/", " ", text, flags=re.S)
+    toks = re.findall(r'<<.*?>>|"(?:[^"\\]|\\.)*"|`[^`]*`|\'(?:[^\'\\]|\\.)+\'|[A-Za-z_!][A-Za-z_0-9]*|[:;|\[\]{}().\-]', text, flags=re.S)
+    prods, i = [], 0
+    while i < len(toks):
+        head = toks[i]
+        if i + 1 >= len(toks) or toks[i + 1] != ":":
+            i += 1
+            continue
+        j = i + 2
+        alts, cur, act = [], [], None
+        while j < len(toks) and toks[j] != ";":
+            t = toks[j]
+            if t == "|":
+                alts.append((cur, act))
+                cur, act = [], None
+            elif t.startswith("<<"):
+                act = t[2:-2]
+            else:
+                cur.append(t)
+            j += 1
+        alts.append((cur, act))
+        if head[0].isupper():
+            for body, a in alts:
+                prods.append((head, body, a))
+        i = j + 1
+    return prods
+
+
+def spec_sdt(s):
+    import re
+    def rep(m):
+        g = m.group(0)
+        if g.startswith("$T"):
+            return "X[%s].(*token.Token)" % g[2:]
+        if g == "$Context":
+            return "C"
+        return "X[%s]" % g[1:]
+    return re.sub(r"\$(?:[0-9]+|T[0-9]+|Context)", rep, s).strip()
+
+
+def c03_reducefuncs(run):
+    """GROUND per carrier: the ReduceFunc bodies emitted in productionstable.go are the action expressions of the
+    grammar after $-rewriting, 'X[0], nil' for an alternative without action, 'nil, nil' for an empty one"""
+    import os, re
+    viol, cases, samples = [], 0, []
+    base = os.path.dirname(os.path.dirname(__file__))
+    for c, g in (("recover", "recover.bnf"), ("conflict", "conflict.bnf")):
+        prods = parse_syntax_part(open(os.path.join(base, "carriers", g)).read())
+        exp = ["X[0], nil"]  # S' : first production
+        nums = [1]
+        for head, body, act in prods:
+            if act is not None and act.strip():
+                exp.append(spec_sdt(act))
+            elif body == ["empty"]:
+                exp.append("nil, nil")
+            else:
+                exp.append("X[0], nil")
+            nums.append(0 if body == ["empty"] else len(body))
+        src = open(os.path.join(run.carriers[c], "parser", "productionstable.go")).read()
+        got = [m.strip() for m in re.findall(r"ReduceFunc: func\(X \[\]Attrib, C interface\{\}\) \(Attrib, error\) \{\s*return (.*?)\n\s*\},", src, flags=re.S)]
+        gotn = [int(x) for x in re.findall(r"NumSymbols: (\d+),", src)]
+        cases += len(exp)
+        if len(got) != len(exp):
+            viol.append({"id": "reduce functions of carrier %s: %d emitted, %d productions" % (c, len(got), len(exp)), "what": "count mismatch", "input": {"carrier": c}})
+            continue
+        for i, (a, b) in enumerate(zip(got, exp)):
+            if re.sub(r"\s+", " ", a) != re.sub(r"\s+", " ", b) and len(viol) < 6:
+                viol.append({"id": "reduce function %d of carrier %s" % (i, c), "what": "emitted %r, the grammar's action gives %r" % (a, b), "input": {"carrier": c, "production": i}})
+            if gotn[i] != nums[i] and len(viol) < 6:
+                viol.append({"id": "NumSymbols of production %d of carrier %s" % (i, c), "what": "emitted %d, want %d" % (gotn[i], nums[i]), "input": {"carrier": c, "production": i}})
+        samples.append({"carrier": c, "productions": len(exp), "example": {"emitted": got[2] if len(got) > 2 else None, "expected": exp[2] if len(exp) > 2 else None}})
+    return {"name": "GROUND emitted ReduceFuncs = rewritten action text / defaults (carriers)", "cases": cases, "evaluations": cases, "violations": viol, "samples": samples}
+
+
+PROPS["C03"]["extra"].append(c03_reducefuncs)
+PROPS["C03"]["bounded"].append({
+    "name": "ACT", "stands_in_for": ["token.(*Token).SDTVal"],
+    "overlay": {"{repo}/internal/frontend/token/verif_sdt_test.go": "harness/sdt/verif_sdt_test.go"},
+    "pkg": "./internal/frontend/token", "run": "TestVerifSDT",
+    "env": {"VERIF_SDT": {"quick": "enum:5", "thorough": "enum:7"}}, "replay_env": "VERIF_SDT",
+})
+PROPS["C03"]["assumptions"] = PARSE_ASSUME + ["SDTVal uses regexp (outside the engine's subset): decided by the bounded ACT scope (all action texts of up to 5 (7) items over $ 0 1 9 T C x Context .Lit and blank) against an independent rewriting; the emitted ReduceFunc bodies and NumSymbols are compared with the carriers' grammars (ground)"]
+
+
+def lexref_corpus(run):
+    """the emitted DFA of the hand-written lexical corpus grammars (corpus/lex_*.bnf) against the reference automaton"""
+    import common as C, expand, glob, json, os
+    gocc = expand.build_gocc(run)
+    exe = C.ensure_tool("lexref", "tools/lexref")
+    viol, cases, samples = [], 0, []
+    for g in sorted(glob.glob(os.path.join(C.VERIF, "corpus", "lex_*.bnf"))):
+        rc, o = C.sh([exe, "check", "-gocc", gocc, g], cwd=run.work, env=dict(C.GOENV, TMPDIR=run.work), timeout=300)
+        cases += 1
+        try:
+            r = json.loads(o[o.index("{"):])
+        except Exception:
+            raise C.EngineError("lexref check failed on %s:\n%s" % (g, o[-1500:]))
+        for x in r.get("fails") or []:
+            viol.append({"id": "lexref corpus %s: %s" % (os.path.basename(g), x.get("kind")), "what": x.get("msg"), "input": {"grammar_file": g, "witness_input_hex": x.get("witness_input_hex")}})
+        samples.append({"grammar": os.path.basename(g), "fails": len(r.get("fails") or [])})
+    return {"name": "LEX corpus: hand-written lexical grammars vs the reference automaton (all inputs)", "cases": cases, "evaluations": cases, "violations": viol, "samples": samples}
+
+
+PROPS["C01"]["extra"].append(lexref_corpus)
+
+
+FEPARSER_CONTRACTS = "{repo}/internal/frontend/parser/zz_contracts_verif.go"
+_fe = {"dir": "{repo}", "pkgs": ["./internal/frontend/parser"], "contracts": [STDLIB, FEPARSER_CONTRACTS]}
+PROPS["C14"]["govc"] = [dict(_fe, prop="C14")]
+PROPS["C14"]["assumptions"] += [
+    "front-end parser contracts: proved under FWF (rows present, stored actions in range) and FNoRecovery (no row of the checked-in tables is a recovery state: established on tables.go by lrref under C15) plus the viable-stack schemata for the front-end tables; Scanner.Scan, TokenMap.TokenString/Type, Position.String, error.Error, errors.New are trusted",
+    "ast.consistent, NewLexPart duplicate detection and main's exit policy have no contract: the ill-formed corpus decides them (bounded)",
+]
+PROPS["C14"]["explanation"] = "Deductive part (govc on internal/frontend/parser, for arbitrary well-formed tables without recovery states and arbitrary token streams): Error never recovers - it discards nothing, pushes nothing, scans nothing; Parse never panics, executes one LR step per iteration, scans a token only in a shift step, and ends with an error the first time the current token has no action. So an accepted input was consumed token by token by the validated automaton (C15) - nothing is skipped or repaired. Bounded part: token-mutation run of the real parser on the corpus (every scanned token consumed, no phantom error symbol, reuse) and the ill-formed corpus (semantic checks, lexical errors, exit status)."
+PROPS["C15"]["govc"] = [dict(_fe, prop="C15")]
+PROPS["C15"]["bounded"] = PROPS["C14"]["bounded"]
+PROPS["C15"]["trusted_base"] = PROPS["C15"]["trusted_base"] + COMMON_TRUSTED
+
+
+FIRST_CONTRACTS = "{repo}/internal/parser/first/zz_contracts_verif.go"
+_first_govc = {"dir": "{repo}", "pkgs": ["./internal/parser/first"], "contracts": [FIRST_CONTRACTS]}
+_first_bounded = {
+    "name": "FIRSTS", "stands_in_for": ["first.FirstS", "first.First", "first.(SymbolSet).AddSet", "first.(*FirstSets).GetSet"],
+    "overlay": {"{repo}/internal/parser/first/verif_first_test.go": "harness/first/verif_first_test.go"},
+    "pkg": "./internal/parser/first", "run": "TestVerifFirstS", "env": {"VERIF_FIRST": "enum"}, "replay_env": "VERIF_FIRST",
+}
+for _p in ("C02", "C04", "C06"):
+    PROPS[_p]["govc"] = PROPS[_p]["govc"] + [dict(_first_govc, prop=_p)]
+    PROPS[_p]["bounded"] = PROPS[_p].get("bounded", []) + [dict(_first_bounded)]
+    PROPS[_p]["explanation"] += " Generator side, proved for all FIRST tables and symbol strings: FirstS is the union of FIRST of the symbols up to and including the first non-nullable one and contains the marker 'empty' exactly when every symbol is nullable (First, SymbolSet.AddSet, FirstSets.GetSet under contract); the fixed point GetFirstSets and the LR(1) closure/goto are decided by the bounded SYN sweep only."
